@@ -3,7 +3,8 @@
 From Coq Require Import ZArith List Ascii String Sorted.
 From Verif Require Import Base.Prelude Base.Str Base.Float Schema.Regex Schema.Units Schema.FloatUnits Generated.Tables
   Proofs.UnitsArith Proofs.UnitsSweep Proofs.UnitsBuiltin Proofs.UnitsFloat
-  Proofs.UnitsStringRe Proofs.UnitsStringTok Proofs.UnitsStringSound.
+  Proofs.UnitsStringRe Proofs.UnitsStringTok Proofs.UnitsStringSound Proofs.UnitsStringRound
+  Proofs.UnitsStringRT Proofs.UnitsStringWitness.
 Import ListNotations.
 Open Scope Z_scope.
 Open Scope list_scope.
@@ -157,3 +158,75 @@ Proof.
     constructor; [right; split; [discriminate | reflexivity]|].
     constructor; [right; split; [discriminate | reflexivity] | constructor].
 Qed.
+
+(* (6) String level, ARBITRARY definitions: the round trip.
+   FULL statement (FALSE — see C16_roundtrip_arbitrary_refuted below):
+     forall u n, wf_units u = true -> 0 <= n <= max_i64 ->
+       parse_units_int u (format_short_int u n) = Some n /\ parse_units_int u (format_long_int u n) = Some n.
+   Proved: the same under the boolean  names_unambiguous u  (Proofs/UnitsStringRound.v):
+     - every name starts with a byte that is neither a digit nor a regexp space, is not "." and
+       does not start with "." followed by a digit, and does not end in a byte strings.TrimSpace cuts;
+     - no name is a proper prefix of another name (of any unit) that continues with a digit or a space
+       (plain prefixes such as "m" / "ms" / "mm" are fine);
+     - two DIFFERENT units (base included) do not share a name.
+   Unbounded in n (all of [0, max int64]) and in the definition; no sweep.  Method: the formatted
+   string has a tokenisation, so the matcher answers (C16_matcher_complete_weak: fuel is enough);
+   its answer is a tokenisation (C16_matcher_sound); under names_unambiguous the formatted string
+   has exactly ONE tokenisation (useq_unique), whose counts are the greedy decomposition
+   (C16_decompose_sum) — so leftmost-first priorities never have to be analysed. *)
+Theorem C16_roundtrip_partial : forall u n,
+  wf_units u = true -> names_unambiguous u = true -> 0 <= n <= max_i64 ->
+  parse_units_int u (format_short_int u n) = Some n /\ parse_units_int u (format_long_int u n) = Some n.
+Proof. intros u n W NU Hn. split; [exact (roundtrip_short u n W NU Hn) | exact (roundtrip_long u n W NU Hn)]. Qed.
+Print Assumptions C16_roundtrip_partial.
+
+(* the tokenisation of a formatted string is unique (the heart of the round trip), for any list
+   of parts whose names are good *)
+Theorem C16_tokenisation_unique : forall G, names_good G -> forall ps, incl ps G ->
+  NoDup (map upart_key ps) -> bare_last ps ->
+  forall ocs, Forall2 oc_valid ps ocs -> forall toks, useq ps (render ocs) toks -> toks = map otok ocs.
+Proof. exact useq_unique. Qed.
+Print Assumptions C16_tokenisation_unique.
+
+(* the five built-in unit sets are unambiguous: for them the round trip holds on the WHOLE range,
+   not only on the swept interval of C16_roundtrip_builtin_bounded *)
+Theorem C16_roundtrip_builtin_all : forall u n, In u builtin_units -> 0 <= n <= max_i64 ->
+  parse_units_int u (format_short_int u n) = Some n /\ parse_units_int u (format_long_int u n) = Some n.
+Proof. exact builtin_roundtrip_all. Qed.
+Print Assumptions C16_roundtrip_builtin_all.
+
+(* non-vacuity: definitions that satisfy the hypotheses, among them one with names that are
+   prefixes of each other *)
+Example C16_roundtrip_nonvacuous :
+  forallb (fun u => wf_units u && names_unambiguous u) builtin_units = true
+  /\ wf_units w_mmm = true /\ names_unambiguous w_mmm = true
+  /\ format_short_int w_mmm 3727 = "1mmm2m7mm"%string /\ parse_units_int w_mmm "1mmm2m7mm" = Some 3727.
+Proof. split; [exact builtin_unambiguous | exact w_mmm_ok]. Qed.
+
+(* Without names_unambiguous the round trip is FALSE in the faithful model — and in the SDK, which
+   accepts these definitions (NewUnits validates nothing) and answers identically: a unit whose
+   short name is shared prints 3600 as "1m" and reads it back as 60. *)
+Theorem C16_roundtrip_arbitrary_refuted :
+  exists u n, wf_units u = true /\ 0 <= n <= max_i64
+    /\ exists m, parse_units_int u (format_short_int u n) = Some m /\ m <> n.
+Proof. exact roundtrip_arbitrary_refuted. Qed.
+Print Assumptions C16_roundtrip_arbitrary_refuted.
+
+(* one witness per clause of names_unambiguous (each definition is wf_units, violates exactly the
+   clause named, and fails to round-trip) *)
+Example C16_unambiguous_clauses_needed :
+  (names_unambiguous w_shared = false /\ parse_units_int w_shared (format_short_int w_shared 3600) = Some 60)
+  /\ (names_unambiguous w_prefix = false /\ parse_units_int w_prefix (format_short_int w_prefix 121) = Some 120)
+  /\ (names_unambiguous w_digit = false /\ parse_units_int w_digit (format_short_int w_digit 10) = Some 100)
+  /\ (names_unambiguous w_trail = false /\ parse_units_int w_trail (format_short_int w_trail 5) = None)
+  /\ (names_unambiguous w_dot = false /\ parse_units_int w_dot (format_short_int w_dot 180) = None)
+  /\ (names_unambiguous w_point = false /\ parse_units_int w_point (format_short_int w_point 303) = None).
+Proof.
+  pose proof w_shared_fails. pose proof w_prefix_fails. pose proof w_digit_fails.
+  pose proof w_trail_fails. pose proof w_dot_fails. pose proof w_point_fails. tauto.
+Qed.
+
+(* NOT proved: the float-side round trip within tolerance (see (4)); that the conditions of
+   names_unambiguous are the weakest possible (they are sufficient, and each clause is needed
+   in the sense of the witnesses above, but e.g. a digit-continuation hazard between two names of
+   the same unit can be harmless thanks to the matcher's leftmost-first priorities). *)
